@@ -73,6 +73,24 @@ def np_ceil(ex, args, kw, st):
                   if not is_intlike(x) else x, args[0])
 
 
+def np_round(ex, args, kw, st):
+    """np.round / np.rint with no decimals: round half to even (IEEE), as a real-valued result."""
+    if len(args) > 1 and concrete(args[1]) not in (None, 0):
+        raise Unsupported('np.round with decimals')
+
+    def f(x):
+        if is_intlike(x):
+            return x
+        x = real(x)
+        fl = z3.ToInt(x)                       # floor
+        frac = x - z3.ToReal(fl)
+        even = (fl % 2 == 0)
+        r = z3.If(frac < z3.RealVal('1/2'), fl,
+                  z3.If(frac > z3.RealVal('1/2'), fl + 1, z3.If(even, fl, fl + 1)))
+        return z3.ToReal(r)
+    return _lift1(ex, f, args[0])
+
+
 def p_int(ex, args, kw, st):
     x = args[0]
     if isinstance(x, bool):
@@ -890,7 +908,8 @@ def cl_uf(name):
 
 
 TABLE = {
-    'math.floor': p_floor, 'math.ceil': p_ceil, 'np.floor': np_floor, 'np.ceil': np_ceil,
+    'math.floor': p_floor, 'math.ceil': p_ceil, 'np.floor': np_floor, 'np.ceil': np_ceil, 'np.round': np_round, 'np.rint': np_round,
+    'np.around': np_round,
     'floor': p_floor, 'ceil': p_ceil,
     'int': p_int, 'float': p_float, 'bool': p_bool, 'abs': p_abs, 'np.abs': p_abs,
     'np.fabs': p_abs, 'fabs': p_abs, 'math.fabs': p_abs,
@@ -1002,6 +1021,9 @@ def arr_method(ex, v, meth, args, kw, st):
                 return SArr(v.shape, lambda idx, f=snap(v): real(f(idx)), 'real')
             if kind == 'bool':
                 return SArr(v.shape, lambda idx, f=snap(v): to_bool(f(idx)), 'bool')
+            if kind == 'int':
+                # C-style truncation toward zero of every element
+                return SArr(v.shape, lambda idx, f=snap(v): p_int(ex, [f(idx)], {}, st), 'int')
         raise Unsupported('astype')
     if meth == 'sum':
         return np_sum(ex, [v], kw, st)
